@@ -695,6 +695,9 @@ type XExplorer struct {
 	// Shard/NShards: after the root execution only the root's alternatives with index%NShards==Shard
 	// are followed (NShards<=1: all).
 	Shard, NShards int
+	// Alternate: take work items alternately from the young and the old end of a level's queue
+	// (learning passes want early and late deviations soon); default is youngest first.
+	Alternate bool
 	// AfterExec is called after every execution; returning true stops the exploration (Stopped).
 	AfterExec func(x *XExec, dev []XChoice) bool
 
@@ -728,8 +731,14 @@ func (e *XExplorer) Explore() {
 				return
 			}
 			q := queues[level]
-			it := q[len(q)-1]
-			queues[level] = q[:len(q)-1]
+			var it xitem
+			if e.Alternate && e.Execs%2 == 1 {
+				it = q[0]
+				queues[level] = q[1:]
+			} else {
+				it = q[len(q)-1]
+				queues[level] = q[:len(q)-1]
+			}
 			cfg := e.Cfg
 			cfg.Choices = it.dev
 			var check func(x *XExec, dev []XChoice)
